@@ -95,7 +95,12 @@ let run (st : stream) (b : Buffer.t) : unit =
              (match latest_not_reaching_node nw t a0 with
               | Ok p -> pr "%s -> OK %s\n" head (match p with Some n -> string_of_int (int_of_nat n) | None -> "-")
               | r -> pr "%s -> %s\n" head (status r))
-           | "removable" -> pr "%s -> %s\n" head (status (check_removable nw t (a0, a1)))
+           | "removable" ->
+             pr "%s -> %s\n" head (status (check_removable nw t (a0, a1)));
+             (match pos_of t.t_nodes a0, pos_of t.t_nodes a1 with
+              | Some i, Some jj ->
+                pr "S %d %d removable %s\n" k j (if ref_removable nw t.t_dummy t.t_nodes i jj then "OK" else "ERR")
+              | _ -> pr "S %d %d removable ERR\n" k j)
            | "rsd" | "red" ->
              (match (if kind = "rsd" then replace_start_depot nw t a0 else replace_end_depot nw t a0) with
               | Ok t2 -> pr "%s -> OK\n" head; pr "%s\n" (tour_line t2);
